@@ -461,17 +461,27 @@ def union_name_scenarios(w: PolWorld, branch):
         ("right side in another order", ["a", "b"], [], ["b", "a"], ["k"]),
         ("no hidden columns", ["a", "b"], [], ["a", "b"], []),
     ):
-        for distinct in (False, True):
+        for distinct, have_union in itertools.product((False, True), (True, False)):
             luid = {n: f"L.{n}" for n in lv + lh}
             ruid = {n: f"R.{n}" for n in rv + rh}
             stacked = []
+            dedup = []  # how duplicates are removed: ("kw", True) for union(.., distinct=True), "unique" for .unique() on the stack
 
-            def stack(frames, *a, _s=stacked, **k):
+            def stack(frames, *a, _s=stacked, _d=dedup, **k):
                 cols = [f.attrs["__frame__"].columns if isinstance(f, Obj) and "__frame__" in f.attrs else None for f in frames]
-                _s.append(cols)
+                # (the probe `pl.concat([df.limit(0), ..])` that only asks for the common schema is not the stacking itself)
+                if k.get("how") is None or not _s:
+                    _s.append(cols)
+                if k.get("distinct"):
+                    _d.append("distinct=True")
                 fr = _frame_obj(w, Frame(cols[0] or []))
                 _add_schema_methods(w, fr)
+                un = fr.attrs["unique"]
+                fr.attrs["unique"] = Native(lambda *a2, _u=un, _d2=_d, **k2: (_d2.append("unique"), _u.fn(*a2, **k2))[1], "frame.unique")
                 return fr
+
+            def no_union(*a, **k):
+                raise PyRaise("AttributeError", "module 'polars' has no attribute 'union'")
 
             class _PlNS(_ModuleNS):
                 def __getattr__(self_, k):
@@ -479,7 +489,7 @@ def union_name_scenarios(w: PolWorld, branch):
                         raise AttributeError(k)
                     return SymNS(f"pl.{k}")
 
-            w.env["pl"] = _PlNS({"union": Native(stack, "pl.union"), "concat": Native(stack, "pl.concat")})
+            w.env["pl"] = _PlNS({"union": Native(stack if have_union else no_union, "pl.union"), "concat": Native(stack, "pl.concat")})
             lf, rf = _frame_obj(w, Frame(lv + lh)), _frame_obj(w, Frame(rv + rh))
             _add_schema_methods(w, lf)
             _add_schema_methods(w, rf)
@@ -488,7 +498,7 @@ def union_name_scenarios(w: PolWorld, branch):
             w.env["compile_ast"] = Native(lambda node, _f=rf, _n={u: n for n, u in ruid.items()}, _s=[ruid[n] for n in rv]: (_f, dict(_n), list(_s), []), "compile_ast")
             local = {"nd": nd, "df": lf, "name_in_df": {u: n for n, u in luid.items()}, "select": [luid[n] for n in lv], "partition_by": []}
             env = ChainMap(local, w.env)
-            desc = f"{label}, distinct={distinct}"
+            desc = f"{label}, distinct={distinct}" + ("" if have_union else ", Polars without pl.union")
             try:
                 p.it.exec_block(list(branch), env)
             except PyRaise as e:
@@ -497,8 +507,10 @@ def union_name_scenarios(w: PolWorld, branch):
             finally:
                 w.env["pl"] = SymNS("pl")
             probs = []
-            if not stacked or stacked[0] != [lv, lv]:
-                probs.append(f"the frames that are stacked have the columns {stacked[0] if stacked else None}, documented {[lv, lv]} (hidden columns must not take part, columns are matched by position)")
+            if bool(dedup) != distinct:
+                probs.append(f"duplicates are {'removed (' + ', '.join(dedup) + ')' if dedup else 'kept'}, documented: {'removed' if distinct else 'kept'} for distinct={distinct}")
+            if not stacked or stacked[-1] != [lv, lv]:
+                probs.append(f"the frames that are stacked have the columns {stacked[-1] if stacked else None}, documented {[lv, lv]} (hidden columns must not take part, columns are matched by position)")
             df = local["df"]
             cols = df.attrs["__frame__"].columns if isinstance(df, Obj) and "__frame__" in df.attrs else None
             names = local["name_in_df"]
